@@ -179,6 +179,23 @@ def _single_succ(t):
     return None
 
 
+_SUMS = ("core::result::Result", "core::option::Option", "core::ops::control_flow::ControlFlow")
+_BRANCH = {"<core::result::Result<T, E> as core::ops::try_trait::Try>::branch": {0: 0, 1: 1},      # Ok -> Continue, Err -> Break
+           "<core::option::Option<T> as core::ops::try_trait::Try>::branch": {1: 0, 0: 1}}         # Some -> Continue, None -> Break
+
+
+def _branch_result(t, env):
+    """`r = Try::branch(x)` with the variant of x known: the variant of the ControlFlow it returns"""
+    m = _BRANCH.get(t.get("res") or "")
+    if m is None or not t["args"]:
+        return None
+    src = mir.op_local(t["args"][0])
+    v = env.get(src)
+    if isinstance(v, tuple) and v[2] in m:
+        return ("v", "core::ops::control_flow::ControlFlow", m[v[2]])
+    return None
+
+
 def threaded(F, body, max_chain=12):
     """Jump threading for constant-assigned locals: `x = const c; goto .. -> J: switch x` (the shape `a || b`, `a && b`,
     `let flag = ..; if flag` and an inlined bool-returning helper all lower to) is rewritten so that the path carrying the
@@ -210,6 +227,10 @@ def threaded(F, body, max_chain=12):
                             src = mir.op_local(rv["a"])
                             if src is not None and src in env:
                                 v = env[src]
+                    elif rv["k"] == "agg" and rv.get("ak") == "adt" and rv.get("adt") in _SUMS:
+                        v = ("v", rv["adt"], int(rv["vi"]))       # a freshly built Ok(..)/Err(..)/Some(..)/None
+                    elif rv["k"] == "discr" and isinstance(rv["pl"], int) and isinstance(env.get(rv["pl"]), tuple):
+                        v = env[rv["pl"]][2]
                     if v is not None and l not in borrowed:
                         env[l] = v
                     else:
@@ -231,7 +252,10 @@ def threaded(F, body, max_chain=12):
             step_env(env, blocks[bd]["s"])
             t = blocks[bd]["t"]
             if t["k"] == "call" and "dest" in t:
+                br = _branch_result(t, env)
                 env.pop(mir.pl_local(t["dest"]), None)
+                if br is not None and isinstance(t["dest"], int):
+                    env[t["dest"]] = br
             if not env:
                 continue
             cur = _single_succ(t)
@@ -245,12 +269,15 @@ def threaded(F, body, max_chain=12):
                 tt = blk["t"]
                 if tt["k"] == "switch":
                     l = mir.op_local(tt["op"])
-                    if l is not None and l in env:
+                    if l is not None and isinstance(env.get(l), int):
                         hit = [tg for v, tg in tt["ts"] if int(v) == env[l]]
                         target = hit[0] if hit else tt["else"]
                     break
                 if tt["k"] == "call" and "dest" in tt:
+                    br = _branch_result(tt, env)
                     env.pop(mir.pl_local(tt["dest"]), None)
+                    if br is not None and isinstance(tt["dest"], int):
+                        env[tt["dest"]] = br
                 if not env:
                     break
                 cur = _single_succ(tt)
